@@ -436,6 +436,7 @@ package raft
 //@ func (r *Raft) compactLogs
 //@   requires nonnil: r != nil && r.logs != nil
 //@   requires config_loaded: typeis(r.conf.v, Config)
+//@   requires snapshot_durable: snapDurable[snapIdx]
 //@   modifies r.logs.has, r.logs.ent, r.logs.first, r.logs.last
 //@   ensures  deletes_le_snapshot: forall i uint64 :: old(r.logs.has[i]) && !r.logs.has[i] ==> i <= snapIdx
 //@   ensures  keeps_trailing_below_log_tail: forall i uint64 :: old(r.logs.has[i]) && !r.logs.has[i] ==> i + cfg(r).TrailingLogs <= r.lastLogIndex
@@ -669,3 +670,38 @@ package raft
 //@              r.lastSnapshotIndex == old(r.lastSnapshotIndex) && r.lastSnapshotTerm == old(r.lastSnapshotTerm) && r.currentTerm == old(r.currentTerm) && r.state == old(r.state) &&
 //@              snapDurable == old(snapDurable) && sent(r.fsmMutateCh) == old(sent(r.fsmMutateCh)) && r.leaderState.inflight != nil &&
 //@              r.configurations.committedIndex == old(r.configurations.committedIndex) && r.configurations.latestIndex == old(r.configurations.latestIndex) && r.snapshots == old(r.snapshots) && r.snapshots != nil
+
+// ---------------------------------------------------------------------------
+// InstallSnapshot handler (C02 resume point, C11 ordering, C04/C12 handshake)
+
+//@ func startSnapshotRestoreMonitor
+//@   trusted progress logging goroutine; touches no raft state
+//@   modifies nothing
+//@   fresh result
+
+//@ func (m *snapshotRestoreMonitor) StopAndWait
+//@   trusted progress logging goroutine; touches no raft state
+//@   modifies nothing
+
+//@ spec func isResp(rpc RPC) *InstallSnapshotResponse = cast(lastsent(rpc.RespChan).Response, *InstallSnapshotResponse)
+
+//@ func (r *Raft) installSnapshot
+//@   requires nonnil: r != nil && req != nil && r.stable != nil && r.trans != nil && r.logger != nil && r.logs != nil && r.snapshots != nil && rpc.RespChan != nil && typeis(r.conf.v, Config)
+//@   requires term_inv: r.currentTerm == curTermDurable(r)
+//@   requires index_range: req.LastLogIndex < MaxInt63 && req.Term < MaxInt63
+//@   ensures  responded: sent(rpc.RespChan) == old(sent(rpc.RespChan)) + 1 && typeis(lastsent(rpc.RespChan).Response, *InstallSnapshotResponse)
+//@   ensures  term_inv: r.currentTerm == curTermDurable(r)
+//@   ensures  term_monotone: r.currentTerm >= old(r.currentTerm)
+//@   ensures  term_change_resets_role: r.currentTerm != old(r.currentTerm) ==> r.state == Follower
+//@   ensures  stale_term_ignored: req.Term < old(r.currentTerm) ==> !isResp(rpc).Success && r.currentTerm == old(r.currentTerm) && r.state == old(r.state) &&
+//@              r.logs.has == old(r.logs.has) && r.lastApplied == old(r.lastApplied) && r.lastSnapshotIndex == old(r.lastSnapshotIndex) &&
+//@              snapDurable == old(snapDurable) && sent(r.fsmMutateCh) == old(sent(r.fsmMutateCh))
+//@   ensures  resume_point: isResp(rpc).Success ==> r.lastApplied == req.LastLogIndex && r.lastSnapshotIndex == req.LastLogIndex && r.lastSnapshotTerm == req.LastLogTerm
+//@   ensures  success_in_leader_term: isResp(rpc).Success ==> r.currentTerm == req.Term
+//@   ensures  durable_before_publish: r.lastSnapshotIndex != old(r.lastSnapshotIndex) ==> snapDurable[r.lastSnapshotIndex]
+//@   ensures  durable_before_restore: sent(r.fsmMutateCh) != old(sent(r.fsmMutateCh)) ==> snapDurable[req.LastLogIndex]
+//@   ensures  nothing_removed_without_durable_snapshot: (exists i uint64 :: old(r.logs.has[i]) && !r.logs.has[i]) ==> snapDurable[req.LastLogIndex]
+//@   ensures  cached_log_tail_untouched: r.lastLogIndex == old(r.lastLogIndex) && r.lastLogTerm == old(r.lastLogTerm)
+//@   ensures  handshake: isResp(rpc).Success ==>
+//@              (req.LastLogIndex == lastEntryIndex(r) && req.LastLogTerm == lastEntryTerm(r)) ||
+//@              (r.logs.has[req.LastLogIndex] && r.logs.ent[req.LastLogIndex].Term == req.LastLogTerm)
